@@ -8,6 +8,18 @@ TECH = "explicit TLA+ specification checked with TLC; TLC-generated cases replay
 NOTE = ("TLC 1.8 and the TLA+ specs under /verif/spec are trusted; bounds as stated in the evidence file; harness primitives observe rule "
         "applications through the public extension API only; Tier-I (introspection) mismatches are reported as DRIFT, never as violations")
 CLAIMS = {
+    "C01": ("model_checking", "RuleSpace.tla enumerates the call configurations (family x primitive x call form x shapes x axes x keepdims x argnum x "
+            "scalar form); every configuration is called on the real code, the full reverse-mode matrix compared with the Jacobian of plain NumPy, and "
+            "TLC judges every observation against Contract!RevExact. Numeric agreement is a ~5e-7 projection, not a proof of the formulas", "4 C01"),
+    "C02": ("model_checking", "same configuration space; full forward-mode matrix and tangent structure judged by TLC against Contract!FwdExact", "4 C02"),
+    "C04": ("model_checking", "same configuration space; oracle-free: reverse and forward matrices must agree to 1e-11 on the whole basis and both be "
+            "linear (Contract!Adjoint), judged by TLC", "4 C04"),
+    "C05": ("model_checking", "same configuration space; structure (shape, real/complex, dtype) of every VJP result equals the argument's, of every JVP "
+            "result the output's (Contract!GradInArgSpace, no numerics), judged by TLC; Shape.tla's predicted shapes are cross-checked against NumPy", "4 C05"),
+    "C06": ("model_checking", "same configuration space; primal under reverse, forward and nested differentiation identical to plain NumPy (value, shape, "
+            "dtype), no tracer handed back, inputs intact (Contract!Transparent) + AGM NoLeak invariant", "4 C06"),
+    "C09": ("model_checking", "configurations with complex operands or results; realified Jacobian of plain NumPy; R = conj(J_R^T conj g) and F = J_R v "
+            "on the real basis {e_k, i e_k}, judged by TLC", "4 C09"),
     "C03": ("model_checking", "RevImpl (toposort + backward_pass + add_outgrads) refines RevAbs over all DAGs <= 5 nodes (multi-edges, diamonds, dead "
             "branches, constants); every exported graph is run on the real code and its rule-application trace validated against RevAbs by TLC", "4 C03"),
     "C07": ("model_checking", "autograd abstract machine (AGM) checked against a symbolic polynomial oracle for every mode sequence of order 2..4; "
